@@ -11,6 +11,7 @@ import (
 	"fmt"
 	"math"
 	"strings"
+	"time"
 )
 
 // ---- S1003: strings.Index -> strings.Contains ----
@@ -404,3 +405,95 @@ func RB3M(s string) bool {
 
 func SB1(s []int) int     { return sum(s[:len(s)]) }
 func SB2(s string) string { return s[1:len(s)] + "." }
+
+// ---- S1001 with defined array types ----
+
+type celsius [4]int
+type fahrenheit [4]int
+
+func AC1(a int) int {
+	c := celsius{a, 1, 2, 3}
+	var f fahrenheit
+	for i := range c {
+		f[i] = c[i]
+	}
+	return f[0] + f[3]
+}
+
+func AC2(a int) int {
+	c := celsius{a, 1, 2, 3}
+	var d celsius
+	for i, v := range c {
+		d[i] = v
+	}
+	return d[0] + d[3]
+}
+
+func AC3(a int) int {
+	c := [4]int{a, 1, 2, 3}
+	var d celsius
+	for i := range c {
+		d[i] = c[i]
+	}
+	return d[0] + d[2]
+}
+
+// ---- QF1011: redundant type in variable declaration ----
+
+type flagT bool
+
+func (f flagT) String() string {
+	if f {
+		return "yes"
+	}
+	return "no"
+}
+
+func RT1(a int) int {
+	var x int = a + 1
+	return x
+}
+
+func RT2(bits uint8) int {
+	var top uint8 = 1 << bits
+	return int(top)
+}
+
+func RT3(a, b int) string {
+	var same flagT = a == b
+	return same.String()
+}
+
+func RT4(a int) int {
+	var f float64 = 1
+	var g = float64(a)
+	return int(f + g)
+}
+
+func RT5(s string) int {
+	var e error = errors.New(s)
+	var t fmt.Stringer = strT(s)
+	return len(e.Error()) + len(t.String())
+}
+
+func RT6(a int) int {
+	var n int64 = int64(a)
+	var u uint8 = uint8(a)
+	return int(n) + int(u)
+}
+
+// ---- QF1009: time comparisons (only the applies-cleanly clauses are checked) ----
+
+func TQ1(a, b time.Time) bool { return a == b }
+
+func TQ2(t time.Time) int {
+	if (time.Time{}) == t {
+		return 1
+	}
+	for i := 0; (time.Time{}) == t && i < 1; i++ {
+		return 2
+	}
+	return 0
+}
+
+func TQ3(a, b time.Time) bool { return !(a == b) || (a) == (b) }
